@@ -1,108 +1,48 @@
-//! scratch probe (agent lex): prints what the real code does on a few inputs
-use samyama::graph::GraphStore;
-use samyama::query::{parse_query, QueryEngine};
-use std::panic::{catch_unwind, AssertUnwindSafe};
-
-fn show_batch(r: Result<samyama::query::RecordBatch, Box<dyn std::error::Error>>) -> String {
-    match r {
-        Ok(b) => format!("cols={:?} rows={:?}", b.columns, b.records),
-        Err(e) => format!("ERR {}", e),
-    }
-}
+//! scratch probe (agent lex)
+#[path = "c24/loopback.rs"]
+mod loopback;
+use samyama::nlq::NLQPipeline;
+use samyama::persistence::tenant::{LLMProvider, NLQConfig};
 
 fn main() {
-    let args: Vec<String> = std::env::args().skip(1).collect();
-    let mode = args.first().map(|s| s.as_str()).unwrap_or("all");
-    std::panic::set_hook(Box::new(|_| {}));
-    if mode == "all" || mode == "c03" {
-        let store = GraphStore::new();
-        let seqs: Vec<Vec<&str>> = vec![
-            vec!["RETURN 'a b'", "RETURN 'a  b'"],
-            vec!["RETURN 1 // x\n+ 1", "RETURN 1 // x + 1"],
-            vec!["RETURN 1", "RETURN\u{a0}1"],
-            vec!["RETURN  1 +  2", "RETURN 1 + 2"],
-            vec!["RETURN 1 /* a  b */ + 2", "RETURN 1 /* a b */ + 2"],
-            vec!["RETURN 1\u{c}+ 2", "RETURN 1 + 2"],
-        ];
-        for seq in seqs {
-            let eng = QueryEngine::with_capacity(2);
-            for q in &seq {
-                let cached = show_batch(eng.execute(q, &store));
-                let fresh = show_batch(QueryEngine::with_capacity(1).execute(q, &store));
-                println!(
-                    "C03 {:?}\n   cached {}\n   fresh  {}\n   hits={} misses={} len={}",
-                    q,
-                    cached,
-                    fresh,
-                    eng.cache_stats().hits(),
-                    eng.cache_stats().misses(),
-                    eng.cache_len()
-                );
-            }
-        }
+    std::env::set_var("NO_PROXY", "127.0.0.1,localhost");
+    std::env::set_var("no_proxy", "127.0.0.1,localhost");
+    let lb = loopback::Loopback::start().expect("bind loopback");
+    let pipe = NLQPipeline::new(NLQConfig {
+        enabled: true,
+        provider: LLMProvider::Ollama,
+        model: "scripted".into(),
+        api_key: None,
+        api_base_url: Some(lb.url.clone()),
+        system_prompt: None,
+    })
+    .expect("pipeline");
+    let rt = tokio::runtime::Builder::new_current_thread().enable_all().build().unwrap();
+    let accept = [
+        "MATCH (n:Person) RETURN n.name", "MATCH (a)-[:KNOWS]->(b) RETURN a, b", "MATCH (n) WHERE n.age > 30 RETURN count(n)", "RETURN 1",
+        "UNWIND [1,2,3] AS x RETURN x", "WITH 1 AS x RETURN x", "CALL db.labels()", "MATCH (n:Person) WHERE n.name = 'SET' RETURN n",
+        "MATCH (n) WHERE n.status = 'CREATED' RETURN n", "match (n) return n", "CALL algo.pageRank({}) YIELD node", "WITH 1 AS x MATCH (n) RETURN n",
+        "RETURN 42", "RETURN datetime()", "  MATCH (n) RETURN n  ", "  RETURN 1  ", "MATCH (n) RETURN n LIMIT 10", "MATCH (n) RETURN n",
+    ];
+    let reject = [
+        "CREATE (n:Person {name: 'Alice'})", "DELETE n", "SET n.name = 'Bob'", "MERGE (n:Person {name: 'Alice'})", "DROP INDEX my_index", "REMOVE n.age",
+        "CREATE (:Person {name: 'Eve'})", "DROP INDEX myIdx", "SET n.name = 'test'", "", "MATCH (n) DETACH DELETE n",
+    ];
+    for q in accept {
+        println!("accept? {:5} {:?}", pipe.is_safe_query(q), q);
     }
-    if mode == "all" || mode == "c25" {
-        let big = "99999999999999999999999";
-        let qs = vec![
-            format!("MATCH (a)-[*{}..2]->(b) RETURN a", big),
-            format!("MATCH (a)-[*1..{}]->(b) RETURN a", big),
-            format!("MATCH (a)-[*{}]->(b) RETURN a", big),
-            "MATCH (a)-[*0x10]->(b) RETURN a".to_string(),
-            "MATCH (a)-[*-1]->(b) RETURN a".to_string(),
-            "MATCH (a)-[*-1..2]->(b) RETURN a".to_string(),
-            "MATCH (a)-[*0o7..0x9]->(b) RETURN a".to_string(),
-            format!("RETURN 1 LIMIT {}", big),
-            format!("RETURN 1 SKIP {}", big),
-            "RETURN 1 LIMIT -1".to_string(),
-            "RETURN 1 LIMIT 0x10".to_string(),
-            format!("MATCH (n) RETURN n LIMIT {}", big),
-            "MATCH (n) RETURN n LIMIT -1".to_string(),
-            "MATCH (n) RETURN n LIMIT 0x10".to_string(),
-            format!("WITH 1 AS x RETURN x LIMIT {}", big),
-            format!("WITH 1 AS x LIMIT {} RETURN x", big),
-            format!("CALL db.labels() YIELD label RETURN label LIMIT {}", big),
-            format!("CREATE (n) RETURN n LIMIT {}", big),
-            format!("UNWIND [1,2] AS x RETURN x LIMIT {}", big),
-            format!("MATCH (n) WITH n CREATE (m) WITH m RETURN m LIMIT {}", big),
-            format!("RETURN 1 AS x UNION RETURN 2 AS x LIMIT {}", big),
-            format!("RETURN {}", big),
-            "RETURN 9223372036854775807".to_string(),
-            "RETURN -9223372036854775808".to_string(),
-            "RETURN 9223372036854775808".to_string(),
-            "RETURN 0x7fffffffffffffff".to_string(),
-            "RETURN 0x8000000000000000".to_string(),
-            "RETURN 0o777".to_string(),
-            "RETURN 1e308".to_string(),
-            "RETURN 1e309".to_string(),
-            "RETURN 1.0e-400".to_string(),
-            "RETURN 007".to_string(),
-            "RETURN [1, 99999999999999999999999]".to_string(),
-            "RETURN 1 + 99999999999999999999999".to_string(),
-        ];
-        for q in qs {
-            let r = catch_unwind(AssertUnwindSafe(|| parse_query(&q)));
-            let s = match r {
-                Err(_) => "PANIC".to_string(),
-                Ok(Err(e)) => format!("ERR {}", e),
-                Ok(Ok(ast)) => {
-                    let lens: Vec<String> = ast
-                        .match_clauses
-                        .iter()
-                        .flat_map(|m| m.pattern.paths.iter())
-                        .flat_map(|p| p.segments.iter())
-                        .map(|s| format!("{:?}", s.edge.length))
-                        .collect();
-                    format!(
-                        "OK skip={:?} limit={:?} lens={:?} with={:?} ret={:?}",
-                        ast.skip,
-                        ast.limit,
-                        lens,
-                        ast.with_clause.as_ref().map(|w| (w.skip, w.limit)),
-                        ast.return_clause.as_ref().map(|r| format!("{:?}", r.items.iter().map(|i| &i.expression).collect::<Vec<_>>()))
-                    )
-                }
-            };
-            println!("C25 {:?} -> {}", q, s);
-        }
+    for q in reject {
+        println!("reject? {:5} {:?}", !pipe.is_safe_query(q), q);
     }
+    let t0 = std::time::Instant::now();
+    for resp in ["MATCH (n) RETURN n", "Here:\n```cypher\nMATCH (n) DETACH DELETE n\n```", "MATCH (n)\nDETACH DELETE n", "CREATE (n)"] {
+        lb.script(resp);
+        let r = rt.block_on(pipe.text_to_cypher("q", "schema"));
+        println!("t2c {:?} -> {:?}", resp, r.map_err(|e| e.to_string()));
+    }
+    for _ in 0..200 {
+        lb.script("MATCH (n) RETURN n");
+        let _ = rt.block_on(pipe.text_to_cypher("q", "schema"));
+    }
+    println!("204 round trips in {:?}", t0.elapsed());
 }
